@@ -1011,7 +1011,7 @@ def shrink(base: str, wd: str, g: U.Gen, view: str) -> U.Gen:
 
 
 def search(ck: Ck, base: str, wd: str) -> None:
-    n = ck.budget(448, 14000)
+    n = ck.budget(448, 11000)
     feats_all = [f for f in U.FEATURES if f not in ('big_runs', 'many', 'resave')]
     found: dict[str, tuple] = {}
     rng = ck.rng
